@@ -204,6 +204,38 @@ func TestVerifFeeMarketRows(t *testing.T) {
 		emit("lead", ifees.NewManager(encodeState(100, p, win, l)), p, l, win, 100, 101_000, r)
 	}
 
+	// (1) hand-picked boundary calls: saturated window / consumption, elapsed = window-1, window, window+1, 2*window,
+	// enormous elapsed times (factor beyond 64 bits), time going backwards, minimum above the price, huge targets
+	{
+		M := uint64(math.MaxUint64)
+		type bc struct {
+			lastSec uint64
+			nowMs   int64
+		}
+		times := []bc{{1000, 1000_999}, {1000, 1009_000}, {1000, 1010_000}, {1000, 1011_500}, {1000, 1020_000}, {1000, 1025_000},
+			{1000, (1000 + 10<<32) * 1000}, {1000, (1000 + 1<<50) * 1000}, {1000, 990_000}, {1 << 62, 5_000}, {M, 0}, {M - 5, 7_000}}
+		for k, tm := range times {
+			var p, l [fees.FeeDimensions]uint64
+			var win [fees.FeeDimensions][window.WindowSize]uint64
+			r := &rules{}
+			// dim 0: everything saturated; dim 1: one saturated slot rolls out; dim 2: big price, low usage (decrease);
+			// dim 3: minimum above the price; dim 4: target at the word limit
+			p = [fees.FeeDimensions]uint64{M, 1 << 33, 1 << 45, 5, 1 << 63}
+			l = [fees.FeeDimensions]uint64{M, 1 << 63, 3, 0, M - 1}
+			for i := 0; i < window.WindowSize; i++ {
+				win[0][i] = M
+				win[2][i] = uint64(i)
+				win[4][i] = 1 << 60
+			}
+			win[1][k%window.WindowSize] = M
+			win[1][9] = 1 << 63
+			r.target = fees.Dimensions{1 << 20, M - 1, 1 << 30, 1000, M}
+			r.denom = fees.Dimensions{48, 1, 2, 48, 3}
+			r.min = fees.Dimensions{100, 1, 1, 1 << 40, 0}
+			emit("boundary", ifees.NewManager(encodeState(tm.lastSec, p, win, l)), p, l, win, tm.lastSec, tm.nowMs, r)
+		}
+	}
+
 	for c := 0; c < calls; {
 		small := rng.Intn(4) == 0
 		cls := "wide"
